@@ -256,6 +256,17 @@ def dualStep (st : DualState) (toks : List String) : Option (DualState × String
   | "eval" :: expr => do
     let (v, rest) ← evalExpr st expr
     if rest.isEmpty then pure (st, fmtNum v) else none
+  | "evalgrad2" :: expr => do
+    let (v, rest) ← evalExpr st expr
+    if !rest.isEmpty then none
+    match v with
+    | .dual2 d =>
+      let names := sortNames d.vars
+      let g1 := d.gradient1 names
+      let g2 := d.gradient2 names
+      let down := Dual.ofDual2 d
+      pure (st, s!"E2 {fmtF d.real} n{names.length} " ++ fmtFs g1 ++ " | " ++ fmtFs g2.flatten ++ " | " ++ fmtDual down)
+    | v => pure (st, "E2 " ++ fmtNum v)
   | "grad1" :: i :: names => do
     match ← st.vals.get? (← i.toNat?) with
     | .dual d => pure (st, "G " ++ fmtFs (d.gradient1 names))
